@@ -16,6 +16,7 @@ import (
 	"fmt"
 	"math/big"
 	"reflect"
+	"sync"
 
 	"github.com/oasisprotocol/curve25519-voi/curve"
 	"github.com/oasisprotocol/curve25519-voi/curve/scalar"
@@ -61,6 +62,43 @@ func headroom(i int) uint64 {
 		return 225726412 // floor(2^27.75)
 	}
 	return 112863206 // floor(2^26.75)
+}
+
+// ---------------------------------------------------------------------------
+// accessors are looked up by name (hooks/*/verif_export_c20*.go register themselves): an accessor that is not
+// available against the tree under test (its hook file was dropped by the driver) caps the cases that need it;
+// it never breaks the check and never hides the other sub-spaces.
+
+var (
+	capMu   sync.Mutex
+	capSeen = map[string]bool{}
+	theCtx  *mc.Ctx
+)
+
+func capOnce(what string) {
+	capMu.Lock()
+	defer capMu.Unlock()
+	if !capSeen[what] {
+		capSeen[what] = true
+		theCtx.Cap(what)
+	}
+}
+
+func missing(pkg, name string) {
+	capOnce("accessor " + pkg + ":" + name + " is not available against this tree (its hook file no longer compiles and was dropped): the cases that read it are skipped")
+}
+
+// lazy caches one read of the library, performed inside the first case that needs it (so that a panic of the
+// library while reading is attributed to a case and reported as a violation, not as a harness failure).
+type lazy struct {
+	once sync.Once
+	v    interface{}
+	f    func() interface{}
+}
+
+func (l *lazy) get() interface{} {
+	l.once.Do(func() { l.v = l.f() })
+	return l.v
 }
 
 type kase struct {
@@ -118,24 +156,37 @@ func checkFE(w *mc.W, name string, fe *field.Element, want *big.Int) bool {
 // checkPoint compares a projective extended point (X:Y:Z:T) with an affine reference point.
 func checkPoint(w *mc.W, name string, p *curve.EdwardsPoint, want ref.Point) bool {
 	cas := map[string]string{"constant": name, "want_x": fmt.Sprintf("%x", want.X), "want_y": fmt.Sprintf("%x", want.Y)}
-	ls := curve.VerifCoordLimbs(p)
-	var v [4]*big.Int
-	ok := true
-	for k := range ls {
-		v[k] = new(big.Int).Mod(feInt(ls[k]), P)
-		for i, x := range ls[k] {
-			if x >= headroom(i) {
-				ok = false
-				w.Fail(name+"/headroom", fmt.Sprintf("%s: coordinate %c limb %d = %#x is outside the documented input headroom", name, "XYZT"[k], i, x), cas)
-			}
-		}
+	if p == nil {
+		w.Fail(name+"/missing", name+" is nil", cas)
+		return false
 	}
+	ok := true
+	var v [4]*big.Int
 	xb, yb, zb, tb := curve.VerifCoords(p)
 	for k, b := range [][32]byte{xb, yb, zb, tb} {
-		if !bytes.Equal(b[:], ref.LE32(v[k])) {
+		v[k] = ref.FromLE(b[:])
+		if v[k].Cmp(P) >= 0 {
 			ok = false
-			w.Fail(name+"/bytes", fmt.Sprintf("%s: coordinate %c ToBytes %x disagrees with its limbs (%x)", name, "XYZT"[k], b, v[k]), cas)
+			w.Fail(name+"/bytes", fmt.Sprintf("%s: coordinate %c encodes as %x >= p", name, "XYZT"[k], b), cas)
 		}
+	}
+	if f, have := curve.VerifC20Reg["coordLimbs"].(func(*curve.EdwardsPoint) [4][]uint64); have {
+		ls := f(p)
+		for k := range ls {
+			if lv := new(big.Int).Mod(feInt(ls[k]), P); lv.Cmp(v[k]) != 0 {
+				ok = false
+				w.Fail(name+"/bytes", fmt.Sprintf("%s: coordinate %c ToBytes %x disagrees with its limbs (%x)", name, "XYZT"[k], v[k], lv), cas)
+				v[k] = lv
+			}
+			for i, x := range ls[k] {
+				if x >= headroom(i) {
+					ok = false
+					w.Fail(name+"/headroom", fmt.Sprintf("%s: coordinate %c limb %d = %#x is outside the documented input headroom", name, "XYZT"[k], i, x), cas)
+				}
+			}
+		}
+	} else {
+		missing("curve", "coordLimbs")
 	}
 	X, Y, Z, T := v[0], v[1], v[2], v[3]
 	switch {
@@ -164,23 +215,34 @@ func checkNiels(w *mc.W, name string, a *curve.VerifAffineNiels, want ref.Point)
 func main() { mc.Main("C20", run) }
 
 func run(c *mc.Ctx) {
-	spaces := []*space{
-		fieldConstants(c),
-		pointConstants(c),
-		basepointTables(c),
-		oddTables(c),
-		vectorTables(c),
-		scalarConstants(c),
-		latticeConstants(c),
-		miscConstants(c),
+	theCtx = c
+	builders := []func(*mc.Ctx) *space{
+		fieldConstants, pointConstants, basepointTables, oddTables, vectorTables, scalarConstants, latticeConstants, miscConstants,
 	}
 	sizes := map[string]int{}
-	for _, s := range spaces {
+	for k, b := range builders {
+		var s *space
+		// building a space only reads reference values and the registries; still, nothing the tree under test does here
+		// may end as a harness failure
+		func() {
+			defer func() {
+				if r := recover(); r != nil {
+					s = &space{name: fmt.Sprintf("setup-%d", k)}
+					s.add("setup", true, func(w *mc.W) {
+						w.Fail("panic/setup", fmt.Sprintf("the library panicked while its constants were being read: %v", r), nil)
+					})
+				}
+			}()
+			s = b(c)
+		}()
 		sizes[s.name] = len(s.cases)
 		s.run(c)
 	}
 	c.Rep.Extra["sub_space_sizes"] = sizes
-	c.Rep.Extra["backend"] = map[string]interface{}{"field_limbs": nl, "vector_tables": curve.VerifC20VectorPresent()}
+	c.Rep.Extra["backend"] = map[string]interface{}{"field_limbs": nl, "vector_backend": curve.VerifSupportsVector()}
+	if c.Rep.NViolations > 0 {
+		return // the vacuity guards protect a "held" verdict only; a violation is reported as such
+	}
 	c.Require("field-constant", 20)
 	c.Require("point-constant", 12)
 	c.Require("basepoint-table-entry", 256)
@@ -190,8 +252,8 @@ func run(c *mc.Ctx) {
 	c.Require("lattice-constant", 2)
 	c.Require("preset-flag", 20)
 	if c.Config == "avx2" {
-		if !curve.VerifC20VectorPresent() {
-			c.Cap("avx2 configuration requested but the vector tables were not generated on this CPU")
+		if !curve.VerifSupportsVector() {
+			c.Cap("avx2 configuration requested but the vector backend is not enabled on this CPU")
 		} else {
 			c.Require("vector-basepoint-table-entry", 256)
 			c.Require("vector-odd-table-entry", 128)
@@ -201,67 +263,78 @@ func run(c *mc.Ctx) {
 
 // ---------------------------------------------------------------------------
 
+// fieldSources lists where each named field constant is read from.
+func fieldSources() []struct {
+	pkg, name string
+	get      func() (*field.Element, bool)
+} {
+	type src = struct {
+		pkg, name string
+		get      func() (*field.Element, bool)
+	}
+	fromReg := func(m map[string]interface{}, key string) func() (*field.Element, bool) {
+		return func() (*field.Element, bool) {
+			fe, ok := m["fe:"+key].(*field.Element)
+			return fe, ok && fe != nil
+		}
+	}
+	direct := func(fe *field.Element) func() (*field.Element, bool) {
+		return func() (*field.Element, bool) { return fe, true }
+	}
+	out := []src{
+		{"field", "field.One", direct(&field.One)},
+		{"field", "field.MinusOne", direct(&field.MinusOne)},
+		{"field", "field.Two", direct(&field.Two)},
+		{"field", "field.SQRT_M1", direct(&field.SQRT_M1)},
+	}
+	if !is64 {
+		// the 64-bit backend has no such constant (immediate in Mul121666, decided by C04)
+		out = append(out, src{"field", "field.constAPLUS2_OVER_FOUR", fromReg(field.VerifC20Reg, "constAPLUS2_OVER_FOUR")})
+	}
+	for _, n := range []string{"constMINUS_ONE", "constEDWARDS_D", "constEDWARDS_D2", "constONE_MINUS_EDWARDS_D_SQUARED",
+		"constEDWARDS_D_MINUS_ONE_SQUARED", "constSQRT_AD_MINUS_ONE", "constINVSQRT_A_MINUS_D"} {
+		out = append(out, src{"curve", n, fromReg(curve.VerifC20Reg, n)})
+	}
+	for _, n := range []string{"constMONTGOMERY_A", "constMONTGOMERY_NEG_A", "constMONTGOMERY_A_SQUARED",
+		"constMONTGOMERY_SQRT_NEG_A_PLUS_TWO", "constMONTGOMERY_U_FACTOR", "constMONTGOMERY_V_FACTOR", "constFieldZero"} {
+		out = append(out, src{"elligator", n, fromReg(elligator.VerifC20Reg, n)})
+	}
+	return out
+}
+
 func fieldConstants(c *mc.Ctx) *space {
 	s := &space{name: "field-constants"}
 	def := refconst.Field()
-	either := refconst.SquareOf()
-	used := map[string]bool{}
-	add := func(name string, fe field.Element) {
-		if x, ok := either[name]; ok {
-			used[name] = true
-			s.add("field-constant", true, func(w *mc.W) {
-				// defined as "a square root of x": both roots satisfy the definition
-				r, ok := ref.FSqrt(x)
-				if !ok {
-					w.Fail(name+"/definition", "reference: not a square", nil)
-					return
-				}
-				got := new(big.Int).Mod(feInt(field.VerifLimbs(&fe)), P)
-				want := r
-				if got.Cmp(r) != 0 {
-					want = ref.FNeg(r)
-				}
-				checkFE(w, name, &fe, want)
-			})
-			return
-		}
-		want, ok := def[name]
+	for _, sc := range fieldSources() {
+		sc := sc
+		want, ok := def[sc.name]
 		if !ok {
-			s.add("field-constant", true, func(w *mc.W) {
-				w.Fail(name+"/definition", "no definition known for constant "+name+" (harness out of date)", nil)
-			})
-			return
+			panic("harness: no definition for " + sc.name)
 		}
-		used[name] = true
-		s.add("field-constant", nontrivialFE(want), func(w *mc.W) { checkFE(w, name, &fe, want) })
+		s.add("field-constant", nontrivialFE(want), func(w *mc.W) {
+			fe, ok := sc.get()
+			if !ok {
+				missing(sc.pkg, sc.name)
+				return
+			}
+			checkFE(w, sc.name, fe, want)
+		})
 	}
-	add("field.One", field.One)
-	add("field.MinusOne", field.MinusOne)
-	add("field.Two", field.Two)
-	add("field.SQRT_M1", field.SQRT_M1)
-	if fe, ok := field.VerifC20APlus2Over4(); ok {
-		add("field.constAPLUS2_OVER_FOUR", *fe)
-	} else {
-		used["field.constAPLUS2_OVER_FOUR"] = true // the 64-bit backend has no such constant (immediate in Mul121666, decided by C04)
-	}
-	for _, n := range curve.VerifC20FieldConstants() {
-		add(n.Name, n.FE)
-	}
-	for _, n := range elligator.VerifC20Constants() {
-		add(n.Name, n.FE)
-	}
-	// One()/MinusOne()/Zero() constructors (literal limbs per backend)
-	var o, m, z field.Element
-	o.One()
-	m.MinusOne()
-	z.Zero()
-	s.add("field-constant", false, func(w *mc.W) { checkFE(w, "Element.One()", &o, big.NewInt(1)) })
-	s.add("field-constant", true, func(w *mc.W) { checkFE(w, "Element.MinusOne()", &m, ref.FNeg(one)) })
-	s.add("field-constant", false, func(w *mc.W) { checkFE(w, "Element.Zero()", &z, big.NewInt(0)) })
-	for name := range def {
-		if !used[name] {
-			c.Broken("reference defines " + name + " but the harness did not read it from the library")
-		}
+	// One()/MinusOne()/Zero() constructors (literal limbs per backend), into a receiver that held something else
+	for _, k := range []struct {
+		name string
+		f    func(fe *field.Element) *field.Element
+		want *big.Int
+	}{
+		{"Element.One()", (*field.Element).One, big.NewInt(1)},
+		{"Element.MinusOne()", (*field.Element).MinusOne, ref.FNeg(one)},
+		{"Element.Zero()", (*field.Element).Zero, big.NewInt(0)},
+	} {
+		k := k
+		s.add("field-constant", nontrivialFE(k.want), func(w *mc.W) {
+			fe := field.SQRT_M1
+			checkFE(w, k.name, k.f(&fe), k.want)
+		})
 	}
 	return s
 }
@@ -271,19 +344,19 @@ func pointConstants(c *mc.Ctx) *space {
 	B := ref.Base
 	s.add("point-constant", true, func(w *mc.W) { checkPoint(w, "ED25519_BASEPOINT_POINT", curve.ED25519_BASEPOINT_POINT, B) })
 	s.add("point-constant", true, func(w *mc.W) {
-		if !bytes.Equal(curve.ED25519_BASEPOINT_COMPRESSED[:], B.Encode()) {
-			w.Fail("ED25519_BASEPOINT_COMPRESSED/value", fmt.Sprintf("%x != encoding of (x, 4/5) %x", curve.ED25519_BASEPOINT_COMPRESSED[:], B.Encode()), nil)
+		if curve.ED25519_BASEPOINT_COMPRESSED == nil || !bytes.Equal(curve.ED25519_BASEPOINT_COMPRESSED[:], B.Encode()) {
+			w.Fail("ED25519_BASEPOINT_COMPRESSED/value", fmt.Sprintf("%x != encoding of (x, 4/5) %x", curve.ED25519_BASEPOINT_COMPRESSED, B.Encode()), nil)
 		}
 	})
 	s.add("point-constant", true, func(w *mc.W) {
 		u := B.ToMontgomeryU() // (1+y)/(1-y) = 9
-		if !bytes.Equal(curve.X25519_BASEPOINT[:], ref.LE32(u)) || u.Cmp(big.NewInt(9)) != 0 {
-			w.Fail("X25519_BASEPOINT/value", fmt.Sprintf("%x != u(B) = %x", curve.X25519_BASEPOINT[:], ref.LE32(u)), nil)
+		if curve.X25519_BASEPOINT == nil || !bytes.Equal(curve.X25519_BASEPOINT[:], ref.LE32(u)) || u.Cmp(big.NewInt(9)) != 0 {
+			w.Fail("X25519_BASEPOINT/value", fmt.Sprintf("%x != u(B) = %x", curve.X25519_BASEPOINT, ref.LE32(u)), nil)
 		}
 	})
 	s.add("point-constant", true, func(w *mc.W) {
-		if want := ref.RistrettoEncode(B); !bytes.Equal(curve.RISTRETTO_BASEPOINT_COMPRESSED[:], want) {
-			w.Fail("RISTRETTO_BASEPOINT_COMPRESSED/value", fmt.Sprintf("%x != RFC 9496 encoding of B %x", curve.RISTRETTO_BASEPOINT_COMPRESSED[:], want), nil)
+		if want := ref.RistrettoEncode(B); curve.RISTRETTO_BASEPOINT_COMPRESSED == nil || !bytes.Equal(curve.RISTRETTO_BASEPOINT_COMPRESSED[:], want) {
+			w.Fail("RISTRETTO_BASEPOINT_COMPRESSED/value", fmt.Sprintf("%x != RFC 9496 encoding of B %x", curve.RISTRETTO_BASEPOINT_COMPRESSED, want), nil)
 		}
 	})
 	s.add("point-constant", true, func(w *mc.W) {
@@ -292,9 +365,22 @@ func pointConstants(c *mc.Ctx) *space {
 	tor := ref.Torsion()
 	for i := 0; i < 8; i++ {
 		i := i
-		s.add("point-constant", i != 0, func(w *mc.W) { checkPoint(w, fmt.Sprintf("EIGHT_TORSION[%d]", i), curve.EIGHT_TORSION[i], tor[i]) })
+		s.add("point-constant", i != 0, func(w *mc.W) {
+			if i >= len(curve.EIGHT_TORSION) {
+				w.Fail("EIGHT_TORSION/missing", fmt.Sprintf("EIGHT_TORSION has %d entries, entry %d is missing", len(curve.EIGHT_TORSION), i), nil)
+				return
+			}
+			checkPoint(w, fmt.Sprintf("EIGHT_TORSION[%d]", i), curve.EIGHT_TORSION[i], tor[i])
+		})
 	}
-	s.add("point-constant", true, func(w *mc.W) { checkPoint(w, "constB_SHL_128", curve.VerifC20BShl128(), refconst.BShl128()) })
+	s.add("point-constant", true, func(w *mc.W) {
+		f, ok := curve.VerifC20Reg["pt:constB_SHL_128"].(func() *curve.EdwardsPoint)
+		if !ok {
+			missing("curve", "constB_SHL_128")
+			return
+		}
+		checkPoint(w, "constB_SHL_128", f(), refconst.BShl128())
+	})
 	// the base point as served by the tables
 	s.add("point-constant", true, func(w *mc.W) {
 		checkPoint(w, "ED25519_BASEPOINT_TABLE.Basepoint()", curve.ED25519_BASEPOINT_TABLE.Basepoint(), B)
@@ -302,9 +388,6 @@ func pointConstants(c *mc.Ctx) *space {
 	s.add("point-constant", true, func(w *mc.W) {
 		checkPoint(w, "RISTRETTO_BASEPOINT_TABLE.Basepoint()", curve.VerifEdwardsFromRistretto(curve.RISTRETTO_BASEPOINT_TABLE.Basepoint()), B)
 	})
-	if len(curve.EIGHT_TORSION) != 8 {
-		c.Broken("EIGHT_TORSION does not have 8 entries")
-	}
 	return s
 }
 
@@ -319,52 +402,146 @@ func lookupWant(row [8]ref.Point, x int) ref.Point {
 	return row[-x-1].Neg()
 }
 
+// packedTable reads packed table `which` once; ok=false when the accessor is unavailable.
+func packedTable(which int) *lazy {
+	return &lazy{f: func() interface{} {
+		f, ok := curve.VerifC20Reg[fmt.Sprintf("packed:%d", which)].(func() [][96]byte)
+		if !ok {
+			return nil
+		}
+		return f()
+	}}
+}
+
+// liveTables names the two live fixed-base tables.
+func liveTables() []struct {
+	name string
+	get  func() *curve.EdwardsBasepointTable
+} {
+	return []struct {
+		name string
+		get  func() *curve.EdwardsBasepointTable
+	}{
+		{"ED25519_BASEPOINT_TABLE", func() *curve.EdwardsBasepointTable { return curve.ED25519_BASEPOINT_TABLE }},
+		{"RISTRETTO_BASEPOINT_TABLE.inner", func() *curve.EdwardsBasepointTable {
+			f, ok := curve.VerifC20Reg["ristrettoTable"].(func() *curve.EdwardsBasepointTable)
+			if !ok {
+				missing("curve", "RISTRETTO_BASEPOINT_TABLE.inner")
+				return nil
+			}
+			return f()
+		}},
+	}
+}
+
+// tableKind: "affine", "vector", "none", or "" when it cannot be determined (accessor unavailable).
+func tableKind(tbl *curve.EdwardsBasepointTable) string {
+	f, ok := curve.VerifC20Reg["tableKind"].(func(*curve.EdwardsBasepointTable) string)
+	if !ok {
+		missing("curve", "EdwardsBasepointTable.inner/innerVector")
+		return ""
+	}
+	return f(tbl)
+}
+
 func basepointTables(c *mc.Ctx) *space {
 	s := &space{name: "basepoint-table"}
 	want := refconst.BasepointTable()
-	// (1) packed bytes: 256 entries of 96 bytes
-	packed := curve.VerifC20Packed(0)
-	if len(packed) != 256 {
-		c.Broken(fmt.Sprintf("packedEdwardsBasepointTable has %d entries, want 256", len(packed)))
-		return s
-	}
+	// (1) packed bytes: 256 entries of 96 bytes (always present in the binary, in every configuration)
+	packed := packedTable(0)
 	for i := 0; i < 32; i++ {
 		for j := 0; j < 8; j++ {
 			i, j := i, j
 			name := fmt.Sprintf("packedEdwardsBasepointTable[%d*8+%d]", i, j)
-			s.add("basepoint-table-entry", true, func(w *mc.W) { checkPacked(w, name, &packed[i*8+j], want[i][j]) })
+			s.add("basepoint-table-entry", true, func(w *mc.W) {
+				t, _ := packed.get().([][96]byte)
+				switch {
+				case packed.get() == nil:
+					missing("curve", "packedEdwardsBasepointTable")
+				case i*8+j >= len(t):
+					w.Fail(name+"/missing", fmt.Sprintf("packedEdwardsBasepointTable has %d entries: entry (%d, %d) is missing", len(t), i, j), nil)
+				default:
+					checkPacked(w, name, &t[i*8+j], want[i][j])
+				}
+			})
 		}
 	}
-	// (2) the library's own unpacking, run afresh (this is the table of every non-vector configuration)
-	un := curve.VerifC20UnpackBasepointTable()
+	s.add("basepoint-table-entry", false, func(w *mc.W) {
+		if t, ok := packed.get().([][96]byte); ok && len(t) != 256 {
+			w.Fail("packedEdwardsBasepointTable/length", fmt.Sprintf("packedEdwardsBasepointTable has %d entries, the table is defined with 32*8 = 256", len(t)), nil)
+		}
+	})
+	// (2) the library's own unpacking, run afresh (the table of every non-vector configuration)
+	unpacked := &lazy{f: func() interface{} {
+		f, ok := curve.VerifC20Reg["unpackBasepointTable"].(func() [][]curve.VerifAffineNiels)
+		if !ok {
+			return nil
+		}
+		return f()
+	}}
+	entry := func(w *mc.W, name string, t [][]curve.VerifAffineNiels, i, j int) {
+		if i >= len(t) || j >= len(t[i]) {
+			w.Fail(name+"/missing", name+": the table has no such entry", nil)
+			return
+		}
+		checkNiels(w, name, &t[i][j], want[i][j])
+	}
 	for i := 0; i < 32; i++ {
 		for j := 0; j < 8; j++ {
 			i, j := i, j
-			name := fmt.Sprintf("unpackEdwardsBasepointTable()[%d][%d]", i, j)
-			s.add("basepoint-table-entry/unpacked", true, func(w *mc.W) { checkNiels(w, name, &un[i][j], want[i][j]) })
+			s.add("basepoint-table-entry/unpacked", true, func(w *mc.W) {
+				t, _ := unpacked.get().([][]curve.VerifAffineNiels)
+				if unpacked.get() == nil {
+					missing("curve", "unpackEdwardsBasepointTable")
+					return
+				}
+				entry(w, fmt.Sprintf("unpackEdwardsBasepointTable()[%d][%d]", i, j), t, i, j)
+			})
 		}
 	}
-	// (3) the live tables: ED25519_BASEPOINT_TABLE and the copy inside RISTRETTO_BASEPOINT_TABLE
-	for _, t := range []struct {
-		name string
-		tbl  *curve.EdwardsBasepointTable
-	}{{"ED25519_BASEPOINT_TABLE", curve.ED25519_BASEPOINT_TABLE}, {"RISTRETTO_BASEPOINT_TABLE.inner", curve.VerifC20RistrettoTable()}} {
+	// (3) the live tables: ED25519_BASEPOINT_TABLE and the copy inside RISTRETTO_BASEPOINT_TABLE.  Which form a live
+	// table has is a property of the configuration: the affine (unpacked) table wherever the vector backend is not in use
+	// - including the amd64 assembly build with AVX2 switched off - and the generated vector table otherwise.
+	for _, t := range liveTables() {
 		t := t
-		live, ok := curve.VerifC20BasepointTableGeneric(t.tbl)
-		if !ok {
-			if _, vok := curve.VerifC20VecBasepointTable(t.tbl); !vok {
+		tbl := t.get()
+		kind := tableKind(tbl)
+		c.Rep.Extra["live_table_form/"+t.name] = kind
+		wantKind := "affine"
+		if curve.VerifSupportsVector() {
+			wantKind = "vector"
+		}
+		s.add("basepoint-table-form", true, func(w *mc.W) {
+			switch {
+			case kind == "":
+			case kind == "none":
 				// a table that is simply missing is a violation of the property (entry (i, j) is not [(j+1)*256^i]B), not a harness error
-				c.Seq("basepoint-table-present/"+t.name, 1, func(w *mc.W, _ int) {
-					w.Fail("basepoint-table/missing", t.name+" holds neither an affine nor a vector table in this configuration: all 256 entries are missing", nil)
-				})
+				w.Fail("basepoint-table/missing", t.name+" holds neither an affine nor a vector table in this configuration: all 256 entries are missing", nil)
+			case kind != wantKind:
+				w.Fail("basepoint-table/form", fmt.Sprintf("%s is in %s form although the vector backend is %v in this configuration: fixed-base multiplication would dereference a nil table", t.name, kind, curve.VerifSupportsVector()), nil)
 			}
+		})
+		if kind != "affine" {
 			continue // vector form: see vectorTables
 		}
+		live := &lazy{f: func() interface{} {
+			f, ok := curve.VerifC20Reg["liveTable"].(func(*curve.EdwardsBasepointTable) [][]curve.VerifAffineNiels)
+			if !ok {
+				return nil
+			}
+			return f(tbl)
+		}}
 		for i := 0; i < 32; i++ {
 			for j := 0; j < 8; j++ {
 				i, j := i, j
-				name := fmt.Sprintf("%s[%d][%d]", t.name, i, j)
-				s.add("basepoint-table-entry/live", true, func(w *mc.W) { checkNiels(w, name, &live[i][j], want[i][j]) })
+				s.add("basepoint-table-entry/live", true, func(w *mc.W) {
+					lt, _ := live.get().([][]curve.VerifAffineNiels)
+					if live.get() == nil {
+						missing("curve", "EdwardsBasepointTable.inner")
+						return
+					}
+					entry(w, fmt.Sprintf("%s[%d][%d]", t.name, i, j), lt, i, j)
+				})
 			}
 		}
 		// every Lookup(x), x in [-8, 8], of every sub-table (Go or assembly lookup + conditional negation)
@@ -373,10 +550,19 @@ func basepointTables(c *mc.Ctx) *space {
 				i, x := i, x
 				name := fmt.Sprintf("%s[%d].Lookup(%d)", t.name, i, x)
 				s.add("basepoint-table-lookup", x != 0, func(w *mc.W) {
-					a, _ := curve.VerifC20AffineLookup(t.tbl, i, int8(x))
+					f, ok := curve.VerifC20Reg["affineLookup"].(func(*curve.EdwardsBasepointTable, int, int8) curve.VerifAffineNiels)
+					if !ok {
+						missing("curve", "affineNielsPointLookupTable.Lookup")
+						return
+					}
+					a := f(tbl, i, int8(x))
 					wp := lookupWant(want[i], x)
 					if checkNiels(w, name, &a, wp) {
-						checkPoint(w, name+"->setAffineNiels", curve.VerifC20AffineNielsToEdwards(&a), wp)
+						if g, ok := curve.VerifC20Reg["affineNielsToEdwards"].(func(*curve.VerifAffineNiels) *curve.EdwardsPoint); ok {
+							checkPoint(w, name+"->setAffineNiels", g(&a), wp)
+						} else {
+							missing("curve", "setAffineNiels")
+						}
 					}
 				})
 			}
@@ -388,7 +574,12 @@ func basepointTables(c *mc.Ctx) *space {
 			i, x := i, x
 			name := fmt.Sprintf("unpackEdwardsBasepointTable()[%d].Lookup(%d)", i, x)
 			s.add("basepoint-table-lookup", x != 0, func(w *mc.W) {
-				a := curve.VerifC20UnpackedLookup(i, int8(x))
+				f, ok := curve.VerifC20Reg["unpackedLookup"].(func(int, int8) curve.VerifAffineNiels)
+				if !ok {
+					missing("curve", "unpackEdwardsBasepointTable")
+					return
+				}
+				a := f(i, int8(x))
 				checkNiels(w, name, &a, lookupWant(want[i], x))
 			})
 		}
@@ -397,7 +588,12 @@ func basepointTables(c *mc.Ctx) *space {
 	for x := -8; x <= 8; x++ {
 		x := x
 		s.add("projective-niels-lookup", x != 0, func(w *mc.W) {
-			e := curve.VerifC20ProjectiveNielsLookup(curve.ED25519_BASEPOINT_POINT, int8(x))
+			f, ok := curve.VerifC20Reg["projectiveNielsLookup"].(func(*curve.EdwardsPoint, int8) [4]field.Element)
+			if !ok {
+				missing("curve", "newProjectiveNielsPointLookupTable")
+				return
+			}
+			e := f(curve.ED25519_BASEPOINT_POINT, int8(x))
 			name := fmt.Sprintf("newProjectiveNielsPointLookupTable(B).Lookup(%d)", x)
 			var v [4]*big.Int
 			for k := range e {
@@ -423,7 +619,12 @@ func basepointTables(c *mc.Ctx) *space {
 		})
 	}
 	s.add("basepoint-table-lookup", false, func(w *mc.W) {
-		id := curve.VerifC20AffineNielsIdentity()
+		f, ok := curve.VerifC20Reg["affineNielsIdentity"].(func() curve.VerifAffineNiels)
+		if !ok {
+			missing("curve", "affineNielsPoint.Identity")
+			return
+		}
+		id := f()
 		checkNiels(w, "affineNielsPoint.Identity()", &id, ref.Identity())
 	})
 	return s
@@ -459,34 +660,81 @@ func oddTables(c *mc.Ctx) *space {
 		tn := map[int]string{1: "constAFFINE_ODD_MULTIPLES_OF_BASEPOINT", 2: "constAFFINE_ODD_MULTIPLES_OF_B_SHL_128"}[which]
 		pn := map[int]string{1: "packedAffineOddMultiplesOfBasepoint", 2: "packedAffineOddMultiplesOfBShl128"}[which]
 		want := refconst.OddMultiples(base)
-		packed := curve.VerifC20Packed(which)
-		if len(packed) != 64 {
-			c.Broken(fmt.Sprintf("%s has %d entries, want 64", pn, len(packed)))
-			continue
-		}
-		live := curve.VerifC20AffineOdd(which)
+		packed := packedTable(which)
+		live := &lazy{f: func() interface{} {
+			f, ok := curve.VerifC20Reg["affineOdd"].(func(int) []curve.VerifAffineNiels)
+			if !ok {
+				return nil
+			}
+			return f(which)
+		}}
 		for j := 0; j < 64; j++ {
 			j := j
-			s.add("odd-table-entry", true, func(w *mc.W) { checkPacked(w, fmt.Sprintf("%s[%d]", pn, j), &packed[j], want[j]) })
-			s.add("odd-table-entry/live", true, func(w *mc.W) { checkNiels(w, fmt.Sprintf("%s[%d]", tn, j), &live[j], want[j]) })
+			s.add("odd-table-entry", true, func(w *mc.W) {
+				t, _ := packed.get().([][96]byte)
+				name := fmt.Sprintf("%s[%d]", pn, j)
+				switch {
+				case packed.get() == nil:
+					missing("curve", pn)
+				case j >= len(t):
+					w.Fail(name+"/missing", fmt.Sprintf("%s has %d entries: entry %d is missing", pn, len(t), j), nil)
+				default:
+					checkPacked(w, name, &t[j], want[j])
+				}
+			})
+			s.add("odd-table-entry/live", true, func(w *mc.W) {
+				t, _ := live.get().([]curve.VerifAffineNiels)
+				name := fmt.Sprintf("%s[%d]", tn, j)
+				switch {
+				case live.get() == nil:
+					missing("curve", tn)
+				case j >= len(t):
+					w.Fail(name+"/missing", fmt.Sprintf("%s has %d entries: entry %d is missing", tn, len(t), j), nil)
+				default:
+					checkNiels(w, name, &t[j], want[j])
+				}
+			})
 			s.add("odd-table-lookup", true, func(w *mc.W) {
-				a := curve.VerifC20AffineOddLookup(which, uint8(2*j+1))
+				f, ok := curve.VerifC20Reg["affineOddLookup"].(func(int, uint8) curve.VerifAffineNiels)
+				if !ok {
+					missing("curve", tn+".Lookup")
+					return
+				}
+				a := f(which, uint8(2*j+1))
 				checkNiels(w, fmt.Sprintf("%s.Lookup(%d)", tn, 2*j+1), &a, want[j])
 			})
 		}
+		s.add("odd-table-entry", false, func(w *mc.W) {
+			if t, ok := packed.get().([][96]byte); ok && len(t) != 64 {
+				w.Fail(pn+"/length", fmt.Sprintf("%s has %d entries, the table is defined with 64", pn, len(t)), nil)
+			}
+		})
 	}
 	return s
 }
 
 func scalarConstants(c *mc.Ctx) *space {
 	s := &space{name: "scalar-constants"}
-	l, r, rr, lf, width := scalar.VerifC20ScalarConstants()
-	n := len(l)
+	// limb layout of the active backend: 5 x 52 bits with the 64-bit field backend, 9 x 29 bits with the 32-bit one
+	width, n := uint(52), 5
+	if !is64 {
+		width, n = 29, 9
+	}
 	wr, wrr, wlf := refconst.ScalarMontgomery(width, n)
 	c.Rep.Extra["scalar_backend"] = map[string]interface{}{"limb_bits": width, "limbs": n}
-	chk := func(name string, got []uint64, want *big.Int) {
+	chk := func(name string, want *big.Int) {
 		s.add("scalar-constant", true, func(w *mc.W) {
+			f, ok := scalar.VerifC20Reg[name].(func() []uint64)
+			if !ok {
+				missing("scalar", name)
+				return
+			}
+			got := f()
 			cas := map[string]string{"constant": name}
+			if len(got) != n {
+				w.Fail(name+"/value", fmt.Sprintf("%s has %d limbs, the %d-bit backend is defined with %d", name, len(got), width, n), cas)
+				return
+			}
 			if v := refconst.FromLimbs(got, width); v.Cmp(want) != 0 {
 				w.Fail(name+"/value", fmt.Sprintf("%s: limbs %x denote %x, definition gives %x", name, got, v, want), cas)
 			}
@@ -497,10 +745,16 @@ func scalarConstants(c *mc.Ctx) *space {
 			}
 		})
 	}
-	chk("constL", l, ref.L)
-	chk("constR", r, wr)    // 2^(width*n) mod L
-	chk("constRR", rr, wrr) // R^2 mod L
+	chk("constL", ref.L)
+	chk("constR", wr)   // 2^(width*n) mod L
+	chk("constRR", wrr) // R^2 mod L
 	s.add("scalar-constant", true, func(w *mc.W) {
+		f, ok := scalar.VerifC20Reg["constLFACTOR"].(func() uint64)
+		if !ok {
+			missing("scalar", "constLFACTOR")
+			return
+		}
+		lf := f()
 		// L * LFACTOR = -1 (mod 2^width), LFACTOR < 2^width: unique, so equality with the reference value is the definition
 		if new(big.Int).SetUint64(lf).Cmp(wlf) != 0 {
 			x := new(big.Int).Mul(ref.L, new(big.Int).SetUint64(lf))
@@ -510,18 +764,21 @@ func scalarConstants(c *mc.Ctx) *space {
 	})
 	s.add("scalar-constant", true, func(w *mc.W) {
 		var b [32]byte
+		if scalar.BASEPOINT_ORDER == nil {
+			w.Fail("BASEPOINT_ORDER/missing", "BASEPOINT_ORDER is nil", nil)
+			return
+		}
 		if err := scalar.BASEPOINT_ORDER.ToBytes(b[:]); err != nil || !bytes.Equal(b[:], ref.LE32(ref.L)) {
 			w.Fail("BASEPOINT_ORDER/value", fmt.Sprintf("BASEPOINT_ORDER = %x, want L = %x", b, ref.LE32(ref.L)), nil)
 		}
 	})
 	s.add("scalar-constant", true, func(w *mc.W) {
-		o := scalar.VerifC20Order()
-		v := new(big.Int)
-		for i := 3; i >= 0; i-- {
-			v.Lsh(v, 64)
-			v.Add(v, new(big.Int).SetUint64(o[i]))
+		f, ok := scalar.VerifC20Reg["order"].(func() []uint64)
+		if !ok {
+			missing("scalar", "order")
+			return
 		}
-		if v.Cmp(ref.L) != 0 {
+		if v := refconst.FromLimbs(f(), 64); v.Cmp(ref.L) != 0 {
 			w.Fail("scalar.order/value", fmt.Sprintf("order = %x, want L", v), nil)
 		}
 	})
@@ -531,7 +788,12 @@ func scalarConstants(c *mc.Ctx) *space {
 func latticeConstants(c *mc.Ctx) *space {
 	s := &space{name: "lattice-constants"}
 	s.add("lattice-constant", true, func(w *mc.W) {
-		hi, lo := lattice.VerifC20EllLowerHalf()
+		f, ok := lattice.VerifC20Reg["constELL_LOWER_HALF"].(func() (int64, uint64))
+		if !ok {
+			missing("lattice", "constELL_LOWER_HALF")
+			return
+		}
+		hi, lo := f()
 		v := new(big.Int).Lsh(big.NewInt(hi), 64)
 		v.Add(v, new(big.Int).SetUint64(lo))
 		if v.Cmp(refconst.EllLowerHalf()) != 0 {
@@ -539,19 +801,23 @@ func latticeConstants(c *mc.Ctx) *space {
 		}
 	})
 	s.add("lattice-constant", true, func(w *mc.W) {
-		ws := lattice.VerifC20EllSquared()
-		v := new(big.Int)
-		for i := 7; i >= 0; i-- {
-			v.Lsh(v, 64)
-			v.Add(v, new(big.Int).SetUint64(ws[i]))
+		f, ok := lattice.VerifC20Reg["ellSquared"].(func() []uint64)
+		if !ok {
+			missing("lattice", "ellSquared")
+			return
 		}
-		if v.Cmp(refconst.EllSquared()) != 0 {
+		if v := refconst.FromLimbs(f(), 64); v.Cmp(refconst.EllSquared()) != 0 {
 			w.Fail("ellSquared/value", fmt.Sprintf("ellSquared() = %x, want L^2 = %x", v, refconst.EllSquared()), nil)
 		}
 	})
 	s.add("lattice-constant", false, func(w *mc.W) {
-		o, zh, zl, oh, ol := lattice.VerifC20SmallConstants()
-		if o != [8]uint64{1} || zh != 0 || zl != 0 || oh != 0 || ol != 1 {
+		f, ok := lattice.VerifC20Reg["small"].(func() ([]uint64, int64, uint64, int64, uint64))
+		if !ok {
+			missing("lattice", "i512One/i128Zero/i128One")
+			return
+		}
+		o, zh, zl, oh, ol := f()
+		if refconst.FromLimbs(o, 64).Cmp(one) != 0 || zh != 0 || zl != 0 || oh != 0 || ol != 1 {
 			w.Fail("lattice.small/value", "i512One / i128Zero / i128One are not 1 / 0 / 1", nil)
 		}
 	})
@@ -565,19 +831,31 @@ func miscConstants(c *mc.Ctx) *space {
 			w.Fail("x25519.Basepoint/value", fmt.Sprintf("x25519.Basepoint = %x, want u = 9", x25519.Basepoint), nil)
 		}
 	})
-	nc := curve.VerifC20NoncanonicalSignBits()
 	wantNC := refconst.NoncanonicalSignBits()
-	if len(nc) != len(wantNC) {
-		c.Broken(fmt.Sprintf("noncanonicalSignBits has %d entries, the definition has %d", len(nc), len(wantNC)))
-	} else {
-		for i := range nc {
-			i := i
-			s.add("misc-constant", true, func(w *mc.W) {
-				if !bytes.Equal(nc[i][:], wantNC[i]) {
-					w.Fail("noncanonicalSignBits/value", fmt.Sprintf("noncanonicalSignBits[%d] = %x, want %x (x = 0 with the sign bit set)", i, nc[i], wantNC[i]), nil)
-				}
-			})
+	ncs := &lazy{f: func() interface{} {
+		f, ok := curve.VerifC20Reg["noncanonicalSignBits"].(func() [][32]byte)
+		if !ok {
+			return nil
 		}
+		return f()
+	}}
+	for i := 0; i <= len(wantNC); i++ {
+		i := i
+		s.add("misc-constant", true, func(w *mc.W) {
+			nc, _ := ncs.get().([][32]byte)
+			switch {
+			case ncs.get() == nil:
+				missing("curve", "noncanonicalSignBits")
+			case i == len(wantNC):
+				if len(nc) != len(wantNC) {
+					w.Fail("noncanonicalSignBits/length", fmt.Sprintf("noncanonicalSignBits has %d entries, exactly %d encodings have x = 0 with the sign bit set", len(nc), len(wantNC)), nil)
+				}
+			case i >= len(nc):
+				w.Fail("noncanonicalSignBits/missing", fmt.Sprintf("noncanonicalSignBits lacks entry %d (%x)", i, wantNC[i]), nil)
+			case !bytes.Equal(nc[i][:], wantNC[i]):
+				w.Fail("noncanonicalSignBits/value", fmt.Sprintf("noncanonicalSignBits[%d] = %x, want %x (x = 0 with the sign bit set)", i, nc[i], wantNC[i]), nil)
+			}
+		})
 	}
 	// Ed25519 verification presets, flag by flag, against the documented semantics
 	presets := map[string]*ed25519.VerifyOptions{
@@ -589,17 +867,23 @@ func miscConstants(c *mc.Ctx) *space {
 	want := refconst.Presets()
 	rt := reflect.TypeOf(ed25519.VerifyOptions{})
 	wt := reflect.TypeOf(refconst.Preset{})
-	if rt.NumField() != wt.NumField() {
-		c.Broken(fmt.Sprintf("VerifyOptions has %d fields, the documented table has %d flags (harness out of date)", rt.NumField(), wt.NumField()))
+	for k := 0; k < rt.NumField(); k++ {
+		if _, ok := wt.FieldByName(rt.Field(k).Name); !ok {
+			c.Cap("VerifyOptions has a field " + rt.Field(k).Name + " that the documented preset table does not describe: not checked")
+		}
 	}
 	for _, pn := range []string{"VerifyOptionsDefault", "VerifyOptionsStdLib", "VerifyOptionsFIPS_186_5", "VerifyOptionsZIP_215"} {
 		for k := 0; k < wt.NumField(); k++ {
 			pn, fn := pn, wt.Field(k).Name
 			s.add("preset-flag", true, func(w *mc.W) {
+				if presets[pn] == nil {
+					w.Fail(pn+"/missing", pn+" is nil", nil)
+					return
+				}
 				gv := reflect.ValueOf(*presets[pn]).FieldByName(fn)
 				wv := reflect.ValueOf(want[pn]).FieldByName(fn).Bool()
 				if !gv.IsValid() || gv.Kind() != reflect.Bool {
-					w.Fail(pn+"/field", "VerifyOptions has no boolean field "+fn, nil)
+					capOnce("VerifyOptions has no boolean field " + fn + " any more: the documented flag cannot be read")
 					return
 				}
 				if gv.Bool() != wv {
@@ -609,7 +893,6 @@ func miscConstants(c *mc.Ctx) *space {
 		}
 	}
 	s.add("misc-constant", true, func(w *mc.W) {
-		// Options.Verify == nil means VerifyOptionsDefault; the package keeps optionsDefault for that: observable only through behaviour (C01).
 		if curve.CompressedPointSize != 32 || curve.MontgomeryPointSize != 32 || curve.RistrettoUniformSize != 64 ||
 			field.ElementSize != 32 || field.ElementWideSize != 64 || scalar.ScalarSize != 32 || scalar.ScalarWideSize != 64 {
 			w.Fail("sizes/value", "a size constant differs from its definition", nil)
